@@ -105,7 +105,7 @@ def gen_program(rng: random.Random, name: str, sample_names: List[str]) -> dict:
 
 def gen_model(rng: random.Random, *, max_parts: int = 3, max_vols: int = 4, max_files: int = 8, pairs: bool = True,
               programs: bool = True, markers: bool = True, rich_header: bool = True, min_files: int = 0,
-              allow_empty_window: bool = False, big: bool = True, many_files: float = 0.0) -> dict:
+              allow_empty_window: bool = False, big: bool = True, many_files: float = 0.0, deleted: bool = True) -> dict:
     nparts = weighted(rng, [(1, 6), (2, 3), (3, 1)]) if max_parts >= 3 else rng.randint(1, max_parts)
     parts = []
     keyc = [0]
@@ -156,11 +156,20 @@ def gen_model(rng: random.Random, *, max_parts: int = 3, max_vols: int = 4, max_
                 else:
                     files.append(gen_sample(rng, safe_name(rng, used), key(), markers=markers, rich_header=rich_header,
                                             allow_empty_window=allow_empty_window))
-            vols.append({"name": safe_name(rng, vnames), "vtype": rng.choice([1, 3]),
+            ghosts = []
+            if deleted and rng.random() < 0.3:
+                # entries of deleted files (start sector 0) left in the table, before / between / after the live ones
+                for _ in range(rng.randint(1, 3)):
+                    ghosts.append([rng.randint(0, len(files)), safe_name(rng, used), rng.choice([0xF3, 0x73, 0xF0, 0x00, 0x64])])
+            vols.append({"name": safe_name(rng, vnames), "vtype": rng.choice([1, 3]), "ghosts": ghosts,
                          "dir": {"mode": "run" if rng.random() < 0.3 else "chain", "policy": rng.choice(A.POLICIES),
                                  "seed": rng.getrandbits(30), "v2": rng.random() < 0.3},
                          "files": files})
-        parts.append({"spare": rng.choice([0, 0, 1, 3, 9, 40]), "volumes": vols, "dirs_last": rng.random() < 0.35})
+        part = {"spare": rng.choice([0, 0, 1, 3, 9, 40]), "volumes": vols, "dirs_last": rng.random() < 0.35}
+        if deleted and vols and rng.random() < 0.3:
+            part["vslots"] = sorted(rng.sample(range(rng.choice([len(vols) + 2, 20, 100])), len(vols)))
+            part["stale_volumes"] = rng.random() < 0.6
+        parts.append(part)
     return {"partitions": parts, "trailing": rng.choice([0, 0, 0, 1, 100, 8192])}
 
 
